@@ -118,7 +118,7 @@ func init() {
 				}
 				if len(vs) > 0 {
 					if !confirm(func() []fw.Violation { v, _ := c01Run(sess, cs); return v }, vs) {
-						w.Notes = append(w.Notes, "HARNESS ERROR: C01 violation did not reproduce: "+cs.Note)
+						w.Notes = append(w.Notes, "UNREPRODUCED: C01 violation did not reproduce: "+cs.Note)
 						return
 					}
 					for _, v := range vs {
